@@ -24,6 +24,7 @@ def letter_maps(numpy):
         'large': [1e15, 1e15 + 1, 1e15 + 2, 1e15 + 3, 1e15 + 4, 1e15 + 5],
         'counts': [0, 1, 2, 3, 5, 8],
         'negint': [-7, -4, -3, -1, 0, 2],        # whole numbers around zero: half-integer queries are negative
+        'withinf': [float('-inf'), -2.0, -1.0, 0.5, 3.5, float('inf')],      # log-likelihoods of impossible catalogs are -inf
     }
 
 
@@ -33,6 +34,11 @@ def query_value(vals, q, kind):
     if q % 2 == 0:
         return vals[q // 2 - 1]
     i = q // 2          # between letter i and i+1 (1-based); i = 0 below all, i = A above all
+    if kind == 'withinf':
+        if i == 0 or i == len(vals):
+            return None             # nothing lies below -inf / above +inf
+        lo, hi = vals[i - 1], vals[i]
+        return -1e300 if lo == -math.inf else (1e300 if hi == math.inf else lo + (hi - lo) / 2)
     if i == 0:
         return vals[0] - 1 if kind in ('int', 'counts', 'negint') else (math.nextafter(vals[0], -math.inf))
     if i == len(vals):
@@ -138,6 +144,8 @@ def run(chk, replay=None):
         kinds = kinds + ['counts']
     if 'negint' not in kinds:
         kinds = kinds + ['negint']
+    if 'withinf' not in kinds:
+        kinds = kinds + ['withinf']
     nb = 0
     for ci, case in enumerate(cases):
         cnt, n, ge, le = case['cnt'], case['n'], case['ge'], case['le']
